@@ -609,14 +609,20 @@ class Check:
         coverage.setdefault("proof_broken", self.proof_broken)
         coverage.setdefault("timing", {"coq_s": round(self.coq_s, 1), "cargo_s": round(self.build_s, 1)})
         n = 0
-        for what, payload, found in self.violations:
+        # one replay file per distinct kind of violation (first occurrence), at most 8
+        seen_kinds = set()
+        distinct = []
+        for v in self.violations:
+            kind = v[0][:70]
+            if kind not in seen_kinds:
+                seen_kinds.add(kind)
+                distinct.append(v)
+        for what, payload, found in distinct[:8]:
             n += 1
             path = write_replay(self.prop, n, {"property": self.prop, "what": what, "seed": self.seed,
                                                "tier": self.tier, "found_failing_input": found, "detail": payload})
             tail = "" if found else " no-failing-input-found"
             print(f"VIOLATION property={self.prop} replay={path}{tail}")
-            if n >= 5:
-                break
         coverage = dict(coverage)
         coverage.setdefault("known_findings_hit", [k[0] for k in self.known_hits])
         write_evidence(self.prop, self.tier, self.seed, coverage, wall, len(self.violations), assumptions, level)
